@@ -266,7 +266,7 @@ func checkBase(c baseCase, r *h.Rec) error {
 }
 
 func TestC05_ScalarBaseMult(t *testing.T) {
-	h.Prop(t, h.P{Name: "scalarbasemult", Quick: 4000, Thorough: 80000, Journal: true}, func(t *rapid.T) baseCase {
+	h.Prop(t, h.P{Name: "scalarbasemult", Quick: 3000, Thorough: 80000, Journal: true}, func(t *rapid.T) baseCase {
 		k, kc := drawScalar(t, "k")
 		return baseCase{K: k, KClass: kc}
 	}, checkBase)
@@ -283,7 +283,11 @@ func TestC05_ScalarBaseMult(t *testing.T) {
 // with both signs.
 func windowScalars(emit func(v *big.Int, class string)) {
 	mask := new(big.Int).Sub(pow256, one)
-	bg := new(big.Int).SetBytes(genFill32(h.SubSeed("window-background")))
+	nbg := h.Scale(1, 4)
+	bgs := make([]*big.Int, nbg)
+	for j := range bgs {
+		bgs[j] = new(big.Int).SetBytes(genFill32(h.SubSeed("window-background", fmt.Sprint(j))))
+	}
 	seen := map[string]bool{}
 	for i := 0; i < 43; i++ {
 		for w := 0; w < 128; w++ {
@@ -303,16 +307,21 @@ func windowScalars(emit func(v *big.Int, class string)) {
 				seen[v.String()] = true
 				emit(v, "k-window-alone")
 			}
-			// same window inside a background
+			// same window inside a background (quick tier: every fourth value, rotating with the window)
+			if !h.Thorough() && (w+i)%4 != 0 {
+				continue
+			}
 			lo := uint(0)
 			if i > 0 {
 				lo = uint(6*i - 1)
 			}
 			win := new(big.Int).Lsh(big.NewInt(127), lo)
 			win.And(win, mask)
-			b := new(big.Int).AndNot(bg, win)
-			b.Or(b, v)
-			emit(b, "k-window-in-background")
+			for _, bg := range bgs {
+				b := new(big.Int).AndNot(bg, win)
+				b.Or(b, v)
+				emit(b, "k-window-in-background")
+			}
 		}
 	}
 }
